@@ -3,7 +3,7 @@
    obligation: a source edit that changes a skeleton breaks the obligation and every theorem below. *)
 From Coq Require Import List Arith NArith ZArith Lia Bool.
 From GoMC Require Import Model.C20_syntax Gen.Queue Model.C20 Proofs.C20 Proofs.C20_fifo Proofs.C20_ll Proofs.C20_ch
-  Proofs.C20_plist Proofs.C20_pool Proofs.C20_term.
+  Proofs.C20_plist Proofs.C20_pool Proofs.C20_term Proofs.C20_ch_term Proofs.C20_cache.
 Import ListNotations.
 
 Definition reachable (P : progs) (capacity : nat) (scripts : list (list op)) (s : state) : Prop :=
@@ -76,6 +76,24 @@ Lemma top_ch_push_never_blocks n scr s i sc v o : reachable ch_progs n scr s ->
   nth_error (thr s) i = Some (mkT sc (Some (OPush v)) (p_push ch_progs) Run None false o) ->
   exists c s', exec ch_progs i c s = Some s'.
 Proof. use_ch. intros R. eapply ch_push_never_blocks; eauto. Qed.
+
+Lemma top_ch_terminates n sc k s : reachN ch_progs (init n sc) k s -> k + phic s <= ch_step_bound sc.
+Proof. rewrite ?ch_progs_ok. apply ch_terminates. Qed.
+
+(* ---- nbt type cache *)
+Lemma top_cache_answers V (F : N -> V) queries s i t k v : creach V F cache_prog (cache_init V queries) s ->
+  nth_error (cthr V s) i = Some t -> In (k, v) (cout V t) -> v = F k.
+Proof. apply cache_answers. Qed.
+Lemma top_cache_entries V (F : N -> V) queries s k v : creach V F cache_prog (cache_init V queries) s ->
+  clookup V k (cmap V s) = Some v -> v = F k.
+Proof. apply cache_entries. Qed.
+Lemma top_cache_monotone V (F : N -> V) s s' : creach V F cache_prog s s' ->
+  forall k v, clookup V k (cmap V s) = Some v -> clookup V k (cmap V s') = Some v.
+Proof. apply cache_monotone. Qed.
+Lemma top_cache_never_blocks V (F : N -> V) queries s i t : creach V F cache_prog (cache_init V queries) s ->
+  nth_error (cthr V s) i = Some t -> (cpcs V t <> CIdle V \/ ckeys V t <> []) ->
+  exists s', cache_step V F cache_prog i s = Some s'.
+Proof. rewrite cache_prog_ok. apply cache_never_blocks. Qed.
 
 (* ---- player list *)
 Lemma top_pl_spec o p : papply pl_progs o p = pspec o p.
